@@ -86,6 +86,14 @@ func propSpecs() map[string]*PropSpec {
 			},
 			Decided: []string{"no panic (nil dereference, failed type assertion, index/slice bounds, nil-map write, division, overflow, negative Repeat count, template/regexp Must) in any non-generated function of internal/model, internal/parser, cmd", "termination of every loop and every recursive function (variants)", "supporting preconditions, loop invariants and postconditions the safety proofs rely on"},
 			OutOfReach: []string{"ANTLR runtime and generated parser (trusted w.r.t. grammar-derived tree contracts)", "cgo boundary, cobra dispatch, OS"}},
+		"C12": {ID: "C12", Kinds: []string{"POST", "PRE", "SAFE", "INV"}, FuncMatch: regexp.MustCompile(`internal/model\.|PacketDslVisitorImpl|parser\.ParseFile|cmd\.(Compile|Execute|init)`),
+			Own:     func(o *Obligation) bool { return strings.Contains(o.Name, "C12:") },
+			Decided: []string{"D1 AddOption: unknown name / illegal value / duplicate => exactly one (at least one for illegal) new diagnostic carrying the declaration's line, accepted options stored without diagnostic", "D2 AddPacket: duplicate name, second root => one diagnostic with the packet's line and the model unchanged; otherwise stored in map and list, no diagnostic", "D3 AddMetaData: duplicate => one diagnostic with its line; otherwise stored", "D8 Compile: a parse error or any model diagnostic => non-nil error, no file-system effect, WriteCodeToFile never called"},
+			OutOfReach: []string{"text of ANTLR's own syntax messages", "completeness over all fault classes inside the visitor (see evidence: which visitor-level clauses are under contract)"}},
+		"C16": {ID: "C16", Kinds: []string{"POST", "PRE", "SAFE"}, FuncMatch: regexp.MustCompile(`cmd\.|parser\.(FormatPacketDsl|WriteCodeToFile)$`),
+			Own:     func(o *Obligation) bool { return strings.Contains(o.Name, "C16:") },
+			Decided: []string{"format: exactly one call of the formatter on the given text; on a formatter error exit status 1 and no file-system effect; with -f exactly one WriteFile(file, result); without -f exactly one stdout line result+\"\\n\" and no file-system effect", "C export: formatter called on GoString(dsl), returns CString(result) or CString(\"Error:\"+err)", "compile: ParseFile called once on the input; see evidence for the per-target clauses"},
+			OutOfReach: []string{"cobra flag parsing and command dispatch, cgo string conversion (trusted library contracts)"}},
 		"C13": {ID: "C13", Kinds: []string{"DET"}, FuncMatch: all,
 			Own:     func(o *Obligation) bool { return o.Kind == "DET" },
 			Decided: []string{"no call to an impure source (time, rand, environment) in any function of model, parser, cmd", "every effect of a `range` over a map that is visible outside the iteration commutes with the same effect for any other key (map updates: distinct keys or equal values; builder appends: equal text; stores: equal values; file-system effects: distinct paths; loop-carried variables: commutative update, or the collect-keys-then-sort idiom)"},
@@ -285,6 +293,13 @@ func report(e *Engine, spec *PropSpec, r *propResult, tier string, seed int, wal
 			}
 		} else {
 			newLedger.Functions[fr.Func] = "ok"
+			if fr.Paths == 0 && fr.Exits == 0 {
+				// no path reaches a return or an exit: every obligation of the function would be vacuous
+				violations++
+				p := filepath.Join(verifRoot, "replays", spec.ID, sanitize(fr.Func)+".nopath.json")
+				writeJSON(p, map[string]interface{}{"property": spec.ID, "obligation": fr.Func + "#VAC:nopath", "reason": "symbolic execution of the function reaches neither a return nor an exit: contradictory assumptions or a modelling gap"})
+				lines = append(lines, fmt.Sprintf("VIOLATION property=%s replay=%s no-failing-input-found", spec.ID, p))
+			}
 		}
 	}
 	// vacuity
